@@ -261,7 +261,7 @@ fn obtain_lazy(src: &Arc<Source>, j: &J, span: &Span, path: &[Step]) -> Result<H
     let target_sp = gen::span_at(span, j, path).unwrap();
     let m = LM { text: src.text[target_sp.start..target_sp.end].to_string(), j: target_j, span: target_sp.rebased() };
     let ptr = gen::to_pointer(path);
-    let route = draw(14);
+    let route = draw(16);
     trace::bump(C::lazy_handles);
     let text = src.text.as_str();
     let lv: LazyValue<'static> = unsafe {
@@ -289,6 +289,14 @@ fn obtain_lazy(src: &Arc<Source>, j: &J, span: &Span, path: &[Step]) -> Result<H
             5 => {
                 trace::bump(C::lazy_route_get);
                 stat(libcall("get_unchecked", || sonic_rs::get_unchecked(text, &ptr))?.map_err(|e| perr("get_unchecked", text, e))?)
+            }
+            14 => {
+                trace::bump(C::lazy_route_get);
+                stat(libcall("get_from_str_unchecked", || sonic_rs::get_from_str_unchecked(text, &ptr))?.map_err(|e| perr("get_from_str_unchecked", text, e))?)
+            }
+            15 => {
+                trace::bump(C::lazy_route_get);
+                stat(libcall("get_from_slice_unchecked", || sonic_rs::get_from_slice_unchecked(text.as_bytes(), &ptr))?.map_err(|e| perr("get_from_slice_unchecked", text, e))?)
             }
             11 => {
                 trace::bump(C::lazy_route_get);
@@ -413,7 +421,7 @@ fn new_owned(cfg: &GenCfg) -> Result<(OwnedLazyValue, OM), Violation> {
 
 fn new_owned_depth(cfg: &GenCfg, depth: u32) -> Result<(OwnedLazyValue, OM), Violation> {
     trace::bump(C::lazy_handles);
-    let route = draw(if depth < 2 { 11 } else { 8 });
+    let route = draw(if depth < 2 { 13 } else { 8 });
     match route {
         8 => {
             // an array built from parts
@@ -437,6 +445,37 @@ fn new_owned_depth(cfg: &GenCfg, depth: u32) -> Result<(OwnedLazyValue, OM), Vio
                 ms.push((key, m));
             }
             Ok((libcall("From<Vec<(FastStr, OwnedLazyValue)>>", || OwnedLazyValue::from(vs))?, OM::Obj(ms)))
+        }
+        11 => {
+            // LazyArray constructors + Vec API, converted back
+            use sonic_rs::LazyArray;
+            let (v, m) = new_owned_depth(cfg, depth + 1)?;
+            let (v2, m2) = new_owned_depth(cfg, depth + 1)?;
+            let out = libcall("LazyArray::with_capacity + push + From", || {
+                let mut a = if draw(2) == 0 { LazyArray::new() } else { LazyArray::with_capacity(3) };
+                a.push(v);
+                let b: LazyArray = vec![v2].into();
+                let mut all = a;
+                for x in b.iter() {
+                    all.push(x.clone());
+                }
+                OwnedLazyValue::from(all)
+            })?;
+            let mut m2c = m2;
+            m2c.make_fuzzy();
+            Ok((out, OM::Arr(vec![m, m2c])))
+        }
+        12 => {
+            use sonic_rs::LazyObject;
+            let (v, m) = new_owned_depth(cfg, depth + 1)?;
+            let out = libcall("LazyObject::new + append_pair + From", || {
+                let mut o = if draw(2) == 0 { LazyObject::new() } else { LazyObject::with_capacity(2) };
+                o.append_pair(FastStr::new("lo"), v);
+                let o2: LazyObject = Vec::<(FastStr, OwnedLazyValue)>::new().into();
+                let _ = o2.len();
+                OwnedLazyValue::from(o)
+            })?;
+            Ok((out, OM::Obj(vec![("lo".to_string(), m)])))
         }
         10 => {
             // to_lazyvalue of an owned lazy value: a new raw value holding the serialization of the first
@@ -512,6 +551,20 @@ fn read_lazy(v: &LazyValue<'static>, m: &LM, what: &str) -> Result<(), Violation
         check_raw_number(v, &m.j, what)?;
         if v.as_raw_str() != m.text {
             return Err(Violation::new("mismatch/as_raw_str", format!("{}: as_raw_str = {:?}, source span is {:?}", what, oracle::truncate(v.as_raw_str()), oracle::truncate(&m.text))));
+        }
+        {
+            // comparison and hashing go by raw text; the default value is the text `null`
+            use std::hash::{Hash, Hasher};
+            let c = v.clone();
+            let d = LazyValue::default();
+            let h = |x: &LazyValue| {
+                let mut s = std::collections::hash_map::DefaultHasher::new();
+                x.hash(&mut s);
+                s.finish()
+            };
+            if c != *v || c.cmp(v) != std::cmp::Ordering::Equal || h(&c) != h(v) || d.as_raw_str() != "null" || (d == *v) != (m.text == "null") {
+                return Err(Violation::new("mismatch/lazy-eq", format!("{}: Eq / Ord / Hash / Default of a lazy value disagree with its raw text", what)));
+            }
         }
         if v.as_raw_cow() != m.text.as_str() || v.as_raw_faststr().as_str() != m.text {
             return Err(Violation::new("mismatch/as_raw_cow", format!("{}: as_raw_cow / as_raw_faststr differ from the source span", what)));
